@@ -251,10 +251,15 @@ def gen_req(rng):
     scheme = rng.choice(['http', 'https'])
     host = rng.choice(['example.com', 'api.example.org', '127.0.0.1', '[::1]', 'localhost'])
     port = rng.choice([80, 443, 8080])
+    no_host = rng.random() < 0.15
+    if no_host and host.startswith('['):
+        # falcon.testing uses `host` verbatim as SERVER_NAME; a server would drop the brackets
+        host = 'localhost'
     return {'method': method, 'path': gen_path(rng), 'query': gen_query(rng), 'headers': hs, 'body': body,
             'scheme': scheme, 'host': host, 'port': port, 'root_path': rng.choice(['', '', '/app']),
             'remote': rng.choice(ADDRS),        # the peer is drawn from the same pool as the hops
             'style': rng.choice(['qs', 'inline', 'inline', 'params']),
+            'no_host': no_host,
             'chunks': rng.randint(1, 3)}
 
 
@@ -268,7 +273,9 @@ UA = 'verif-driver/1'
 
 def full_headers(r):
     """What a client puts on the wire: generated headers + Host + User-Agent (+ Content-Length)."""
-    hs = list(r['headers']) + [('Host', host_header(r)), ('User-Agent', UA)]
+    hs = list(r['headers']) + [('User-Agent', UA)]
+    if not r.get('no_host'):
+        hs.append(('Host', host_header(r)))     # an HTTP/1.0 request may come without one
     if r['body']:
         hs.append(('Content-Length', str(len(r['body']))))
     return hs
@@ -296,7 +303,7 @@ def drive_wsgi(app, r):
     raw = urllib.parse.unquote_to_bytes(r['path'])
     env = {'REQUEST_METHOD': r['method'], 'PATH_INFO': raw.decode('latin-1'), 'QUERY_STRING': r['query'],
            'SCRIPT_NAME': r['root_path'], 'SERVER_NAME': r['host'].strip('[]'), 'SERVER_PORT': str(r['port']),
-           'SERVER_PROTOCOL': 'HTTP/1.1', 'wsgi.url_scheme': r['scheme'], 'wsgi.input': io.BytesIO(r['body']),
+           'SERVER_PROTOCOL': 'HTTP/1.0' if r.get('no_host') else 'HTTP/1.1', 'wsgi.url_scheme': r['scheme'], 'wsgi.input': io.BytesIO(r['body']),
            'wsgi.errors': io.StringIO(), 'REMOTE_ADDR': r['remote'], 'wsgi.version': (1, 0),
            'wsgi.multithread': False, 'wsgi.multiprocess': False, 'wsgi.run_once': False}
     for n, v in full_headers(r):
@@ -317,7 +324,8 @@ def drive_wsgi(app, r):
 
 def drive_asgi(app, r):
     raw = urllib.parse.unquote_to_bytes(r['path'])
-    scope = {'type': 'http', 'asgi': {'version': '3.0', 'spec_version': '2.1'}, 'http_version': '1.1',
+    scope = {'type': 'http', 'asgi': {'version': '3.0', 'spec_version': '2.1'},
+             'http_version': '1.0' if r.get('no_host') else '1.1',
              'method': r['method'], 'scheme': r['scheme'], 'path': raw.decode('utf-8', 'replace'),
              'raw_path': r['path'].encode('ascii'), 'query_string': r['query'].encode('latin-1'),
              'root_path': r['root_path'],
@@ -382,7 +390,8 @@ def drive_testing(testing, app, r):
     hs = list(r['headers']) + [('User-Agent', UA)]
     kw = dict(headers=hs, body=r['body'] or None,
               host=r['host'], port=r['port'], protocol=r['scheme'], remote_addr=r['remote'],
-              root_path=r['root_path'] or None, wsgierrors=io.StringIO())
+              root_path=r['root_path'] or None, wsgierrors=io.StringIO(),
+              http_version='1.0' if r.get('no_host') else '1.1')
     kw.update(testing_target(r))
     res = cl.simulate_request(r['method'], **kw)
     return norm_result(res.status, list(res.headers.items()), res.content,
@@ -560,6 +569,104 @@ def judge_extra(ctx, r, opts, dw, da, results, plan, tt, o_route, o_body, o_spli
                                   'target': target, 'model': repr(sim), 'request_line': list(want)})
 
 
+VIEW_FIELDS = ['method', 'path', 'query_string', 'params', 'content_type', 'content_length', 'scheme', 'host', 'port',
+               'netloc', 'subdomain', 'root_path', 'relative_uri', 'uri', 'prefix', 'forwarded_scheme',
+               'forwarded_host', 'forwarded_uri', 'forwarded_prefix', 'access_route', 'remote_addr', 'cookies',
+               'range', 'range_unit', 'if_match', 'if_none_match', 'accept', 'user_agent', 'referer', 'expect',
+               'if_range', 'auth']
+
+
+def view_case(r, opts):
+    """The abstract request as the Coq record `areq` (oracles: utf-8/replace decoding of the path,
+    strict decoding of the query, str(port))."""
+    raw = urllib.parse.unquote_to_bytes(r['path'])
+    q = r['query']
+    try:
+        qdec = [q.encode('latin-1').decode('utf-8')]
+    except UnicodeDecodeError:
+        qdec = []
+    areq = [r['method'], list(raw), [ord(c) for c in raw.decode('utf-8', 'replace')], q, qdec,
+            [[n, v] for n, v in full_headers(r)], r['scheme'], r['host'].strip('[]'), r['port'], str(r['port']),
+            r['root_path'], r['remote']]
+    return [4, areq, opts[0], opts[1], opts[2]]
+
+
+def view_to_digest(v):
+    """Wire view -> the vocabulary of `digest`."""
+    import http.cookies
+    ws, wo = common.wstr, common.wopt
+
+    def res(x, f):
+        return f(x[1]) if x[0] == 0 else ('HTTP 400' if x[0] == 1 else 'EXC ValueError')
+
+    def params(x):
+        if not x:
+            return 'EXC UnicodeDecodeError'
+        x = x[0]
+        if x[0] != 0:
+            return 'EXC crash'
+        return sorted([ws(k), ws(pv[1]) if pv[0] == 0 else [ws(i) for i in pv[1]]] for k, pv in x[1])
+
+    def etags(x):
+        l = wo(x)
+        return None if l is None else [['*'] if t[0] == 0 else [bool(t[1]), ws(t[2])] for t in l]
+
+    d = {}
+    it = iter(v)
+    d['method'] = ws(next(it))
+    d['path'] = ws(next(it))
+    d['query_string'] = wo(next(it), ws)
+    d['params'] = params(next(it))
+    d['content_type'] = wo(next(it), ws)
+    d['content_length'] = res(next(it), lambda o: wo(o))
+    d['scheme'] = ws(next(it))
+    d['host'] = res(next(it), ws)
+    d['port'] = res(next(it), lambda o: wo(o))
+    d['netloc'] = ws(next(it))
+    d['subdomain'] = res(next(it), lambda o: wo(o, ws))
+    for k in ('root_path', 'relative_uri', 'uri', 'prefix', 'forwarded_scheme', 'forwarded_host', 'forwarded_uri',
+              'forwarded_prefix'):
+        d[k] = ws(next(it))
+    d['access_route'] = res(next(it), lambda l: [ws(x) for x in l])
+    d['remote_addr'] = res(next(it), ws)
+    d['cookies'] = sorted([ws(k), ws(c[1]) if c[0] == 0 else http.cookies._unquote(ws(c[1]))] for k, c in next(it))
+    d['range'] = res(next(it), lambda o: wo(o, list))
+    d['range_unit'] = res(next(it), lambda o: wo(o, ws))
+    d['if_match'] = etags(next(it))
+    d['if_none_match'] = etags(next(it))
+    d['accept'] = ws(next(it))
+    for k in ('user_agent', 'referer', 'expect', 'if_range', 'auth'):
+        d[k] = wo(next(it), ws)
+    return d
+
+
+def norm_digest(dg):
+    """The digest fields of the view record, JSON-normalised (tuples -> lists)."""
+    return json.loads(json.dumps({k: dg[k] for k in VIEW_FIELDS}, default=repr))
+
+
+def judge_view(ctx, r, opts, dw, da, out):
+    vw, va, valid = view_to_digest(out[0]), view_to_digest(out[1]), bool(out[2])
+    vw, va = json.loads(json.dumps(vw)), json.loads(json.dumps(va))
+    if valid and vw != va:
+        # the record theorem C06_views_agree says this cannot happen for a valid request
+        diff = [k for k in VIEW_FIELDS if vw[k] != va[k]]
+        ctx.violation('model-views-disagree',
+                      {'what': 'the modelled WSGI and ASGI views differ on an HTTP-valid request',
+                       'request': req_json(r), 'fields': diff, 'wsgi': {k: vw[k] for k in diff},
+                       'asgi': {k: va[k] for k in diff}, 'broken': 'C06.views_agree'}, key='model-views')
+    for stack, dg, pred in (('wsgi', dw, vw), ('asgi', da, va)):
+        if dg is None:
+            continue
+        got = norm_digest(dg)
+        diff = [k for k in VIEW_FIELDS if got[k] != pred[k]]
+        if diff:
+            disagreements.append({'what': 'falcon.%sRequest differs from the modelled view in %s'
+                                          % ('asgi.' if stack == 'asgi' else '', ', '.join(diff)),
+                                  'request': req_json(r), 'options': list(opts),
+                                  'impl': {k: got[k] for k in diff}, 'model': {k: pred[k] for k in diff}})
+
+
 def model_view(r, opts):
     """Wire case for the Coq model: the abstract request and the request options."""
     raw = urllib.parse.unquote_to_bytes(r['path'])
@@ -636,11 +743,13 @@ def main(ctx):
         cases.append(body_case(falcon, state['plan']))
         tt = testing_target(r)
         cases.append([3, tt['path'], [tt['query_string']] if 'query_string' in tt else []])
+        cases.append(view_case(r, opts))
         meta.append((r, opts, digests[base], digests['asgi-driver'], dict(results), state['plan'], tt))
     outs_all = model.run_many(cases)
     for mi, (r, opts, dw, da, results, plan, tt) in enumerate(meta):
-        out, o_route, o_body, o_split = outs_all[4 * mi:4 * mi + 4]
+        out, o_route, o_body, o_split, o_view = outs_all[5 * mi:5 * mi + 5]
         judge_extra(ctx, r, opts, dw, da, results, plan, tt, o_route, o_body, o_split)
+        judge_view(ctx, r, opts, dw, da, o_view)
         if dw is None or da is None:
             continue
         pred = {'path_w': common.wstr(out[0]), 'path_a': common.wstr(out[1]), 'agree': bool(out[2]),
